@@ -9,6 +9,7 @@ import (
 	"os"
 	"strconv"
 	"sync"
+	"time"
 )
 
 // Tracer appends one JSON object per line to the file named by VERIF_TRACE.
@@ -106,4 +107,14 @@ func ReadScenarios(fn func(line []byte)) {
 			fn(append([]byte(nil), sc.Bytes()...))
 		}
 	}
+}
+
+// Watchdog calls onFire (from a goroutine outside any synctest bubble, on the real clock) unless
+// the returned stop function is called within d. A bubble whose goroutines wait for a sync.Mutex or
+// sync.Once held by a blocked goroutine never comes to rest and never reports a deadlock; the
+// watchdog lets the driver record that and stop instead of running into the test timeout.
+func Watchdog(d time.Duration, onFire func()) (stop func()) {
+	t := time.AfterFunc(d, onFire)
+
+	return func() { t.Stop() }
 }
